@@ -30,20 +30,8 @@ def run(ctx):
     r = ctx.rng
     # when a table theorem fails, search the dumped table for the concrete names that break it (the failing input)
     if ctx.proof_failures:
-        R = lambda n: res[n][0]
-        def powr(x, k): return (x[0] ** k, x[1] * k, {b: e * k for b, e in x[2].items()})
-        for n in names:
-            if res[n][0] is None and not res[n][1].startswith("ok approx."):
-                ctx.spec_failures.append({"stream": "unit-table", "input": f"1 {n}", "impl": res[n][1][:200], "model": "", "spec": "every singular and plural name of the table evaluates without error"})
-        for a, b in sp:
-            if R(names[a]) != R(names[b]):
-                ctx.spec_failures.append({"stream": "unit-table", "input": f"(1 {names[a]}) == (1 {names[b]})", "impl": f"{res[names[a]][1][:100]} vs {res[names[b]][1][:100]}", "model": "", "spec": "singular and plural denote the same quantity"})
-        for a, b in alias:
-            if R(names[a]) != R(names[b]):
-                ctx.spec_failures.append({"stream": "unit-table", "input": f"(1 {names[a]}) == (1 {names[b]})", "impl": f"{res[names[a]][1][:100]} vs {res[names[b]][1][:100]}", "model": "", "spec": "short and long spellings of one unit agree"})
-        for x, y, k in fam:
-            if R(names[y]) is None or R(names[x]) is None or R(names[y]) != powr(R(names[x]), k):
-                ctx.spec_failures.append({"stream": "unit-table", "input": f"1 {names[y]} to {names[x]}^{k}", "impl": res[names[y]][1][:120], "model": f"{names[x]}^{k}", "spec": "sqX = X2 = X^2 and cbX = X3 = X^3"})
+        for inp, impl, spec in units_resolved.table_failures():
+            ctx.spec_failures.append({"stream": "unit-table", "input": inp, "impl": impl, "model": "", "spec": spec})
     # Tie B: the lookup model vs the implementation
     tab_names = [n for n in dict.fromkeys([x for _, s, p, _ in table for x in (s, p) if x]) if n not in ("'", '"') and " " not in n]
     long_prefixes = [s for _, s, p, d in table if units.rule_of(d)[0] == "longPrefix"]
